@@ -502,9 +502,17 @@ BAD_KINDS = ['susp-mid', 'susp-dup', 'susp-unknown', 'susp-suspending', 'susp-su
 
 
 def gen_history(rng, gen='G-exec', overcommit=None, max_ticks=None, p_bad=0.3, bad_kinds=None, bad_early=False,
-                p_inflight=None):
+                p_inflight=None, huge=False):
     cfg = gen_config(rng, overcommit)
     cfg['gen'] = gen
+    if huge:
+        # pools so large that an excess of one CPU or 1/8 GB is below 1e-9 of the free amount (all of it exact in
+        # float and in the model): "fits" is <=, not approximately <=
+        cfg['over'] = 0
+        if rng.random() < 0.5:
+            cfg['ram'] = 2 ** rng.choice([31, 33, 36])
+        else:
+            cfg['cpu'] = 2 ** 31          # (its square still fits the int64 of the numpy scaling laws)
     if rng.random() < 0.3:
         cfg['peek'] = 1
     if p_inflight is not None:
